@@ -26,7 +26,9 @@ def setup(ctx):
 
 def dims_for(rng, dmin=2, dmax=4, cap=64, mmin=2):
     d = int(rng.integers(dmin, dmax + 1))
-    dims = [int(rng.integers(mmin, 4)) for _ in range(d)]
+    dims = [int(rng.integers(mmin, 4)) if rng.random() > 0.12 else 1 for _ in range(d)]  # modes of size 1 included
+    if int(np.prod(dims)) < 2:
+        dims[int(rng.integers(0, d))] = 2
     while int(np.prod(dims)) > cap:
         dims[int(np.argmax(dims))] -= 1
     return dims
